@@ -82,6 +82,9 @@ def modules_for(tier_, seed_):
     else:
         for i in range(2):
             mods.append(bridgegen.random_module(seed_, i))
+    only = os.environ.get("VERIF_ONLY_MODULES")      # development aid; never set by the registered commands
+    if only:
+        mods = [m for m in mods if m.name in only.split(",")]
     return mods
 
 
